@@ -5,6 +5,7 @@ package webseed
 import (
 	"context"
 	"io"
+	"net/http"
 )
 
 type vCountWriter struct{ n int64 }
@@ -12,6 +13,24 @@ type vCountWriter struct{ n int64 }
 func (w *vCountWriter) Write(b []byte) (int, error) { w.n += int64(len(b)); return len(b), nil }
 
 var vBody int64
+var vHasCL, vHasCR, vCLbad bool
+var vCL int64
+
+// models of the header access and integer parsing: a Content-Length may be present (any value
+// the transport accepts: >= 0) or absent; when present the transport delivers at most that many
+// body bytes. A Content-Range may be present (its parse is cut: any values).
+func vHeaderGet(h http.Header, key string) string {
+	if (key == "Content-Length" && vHasCL) || (key == "Content-Range" && vHasCR) {
+		return "v"
+	}
+	return ""
+}
+func vParseInt(s string, base int, bits int) (int64, error) {
+	if vCLbad {
+		return 0, ErrParse
+	}
+	return vCL, nil
+}
 
 // vCopy stands in for io.Copy under H_C14_get: the reply body is a stream of vBody bytes (any
 // length: the transport does not bound a chunked body); a LimitedReader caps what is copied.
@@ -38,6 +57,10 @@ func H_C14_get() {
 	vAssume(flength >= 0 && flength <= int64(1)<<40 && offset >= 0 && length >= 1 && length <= int64(1)<<22 && offset <= flength && length <= flength-offset)
 	vBody = vI64("body")
 	vAssume(vBody >= 0 && vBody <= int64(1)<<41)
+	vHasCL, vHasCR, vCLbad = vBool("has-content-length"), vBool("has-content-range"), vBool("bad-content-length")
+	vCL = vI64("content-length")
+	vAssume(vCL >= 0)
+	vAssume(vImp(vAnd(vHasCL, !vCLbad), vBody <= vCL)) // the transport enforces an announced Content-Length
 	w := &vCountWriter{}
 	var n int64
 	var err error
